@@ -681,6 +681,12 @@ def _check_pk_step(req, m, m1, d0, undef0, pts, ctx, classes):
             # the model is already in a combination documented as not supported (lag time with instantaneous or
             # sequential absorption): what happens to the lag time from there is not specified
             classes.append(f'unsupported-state:lag-with-{d0["ABSORPTION"]}:{req.label}')
+        elif cat == 'LAGTIME' and d0['LAGTIME'] and d0['TRANSITS'] != d1['TRANSITS'] and coupling_doc(req, 'TRANSITS') is not None:
+            # chain of two documented couplings: the request is documented as not combinable with transit compartments
+            # (ZO / SEQ-ZO-FO / INST x TRANSITS) and changed their number, and changing the number of transit
+            # compartments replaces the lag time (TRANSITS -> LAGTIME; LAGTIME(ON) x TRANSITS is itself a combination
+            # that is "never run")
+            classes.append(f'documented-coupling-chain:{req.label}:TRANSITS>LAGTIME')
         elif cat in ('LAGTIME', 'BIO') and GROUP[req.cat] == 'absorption':
             # Lag time and bioavailability are attributes of the dose: a request of the absorption group moves them
             # with the dose (set_zero_order_absorption / set_first_order_absorption / set_transit_compartments do so
